@@ -10,6 +10,10 @@ mod rtproto;
 mod seslayer;
 mod findlayer;
 mod find2;
+mod lexlayer;
+mod varlayer;
+mod lstlayer;
+mod probe;
 
 pub fn dispatch_answer(req: &str) -> String {
     let parts: Vec<&str> = req.split(' ').collect();
@@ -18,6 +22,9 @@ pub fn dispatch_answer(req: &str) -> String {
         "COMPILE" => compilelayer::answer_compile(req),
         "SES" => seslayer::answer_ses(req),
         "FIND" => findlayer::answer_find(req),
+        "LEX" | "C05" | "C05D" | "C16" => lexlayer::answer(req),
+        "VAR" | "VARSPEC" => varlayer::answer(req),
+        "LST" | "LSTSPEC" => lstlayer::answer(req),
         _ => ops::answer(req),
     }
 }
@@ -59,6 +66,17 @@ fn main() {
         "find-c18" => findlayer::gen_c18(&mut w, &tier, seed),
         "find-c19" => findlayer::gen_c19(&mut w, &tier, seed),
         "find-c20" => findlayer::gen_c20(&mut w, &tier, seed),
+        "var-scripts" => varlayer::gen_scripts(&mut w, &tier, seed),
+        "var-witness" => varlayer::gen_witness(&mut w, &tier, seed),
+        "var-pool" => varlayer::gen_pool(&mut w, &tier, seed),
+        "lst-exh" => lstlayer::gen_exh(&mut w, &tier, seed),
+        "lst-rand" => lstlayer::gen_rand(&mut w, &tier, seed),
+        "lst-renum" => lstlayer::gen_renum(&mut w, &tier, seed),
+        "probe" => probe::session(),
+        "lex-exh" => lexlayer::gen_exh(&mut w, &tier, seed),
+        "lex-rand" => lexlayer::gen_rand(&mut w, &tier, seed),
+        "lex-c05" => lexlayer::gen_c05(&mut w, &tier, seed),
+        "lex-c16" => lexlayer::gen_c16(&mut w, &tier, seed),
         "replay" => ops::replay(&mut w),
         other => {
             eprintln!("unknown layer {}", other);
